@@ -19,41 +19,41 @@ var usedModels = map[string]bool{}
 
 func init() {
 	for k, v := range map[string]stdModel{
-		"(encoding/binary.bigEndian).Uint16":    beGet(2),
-		"(encoding/binary.bigEndian).Uint32":    beGet(4),
-		"(encoding/binary.bigEndian).Uint64":    beGet(8),
-		"(encoding/binary.bigEndian).PutUint16": bePut(2),
-		"(encoding/binary.bigEndian).PutUint32": bePut(4),
-		"(encoding/binary.bigEndian).PutUint64": bePut(8),
-		"slices.Concat":                         slicesConcat,
-		"bytes.Equal":                           bytesEqual,
-		"errors.New":                            newError,
-		"(io/fs.DirEntry).Name":                 entryName,
-		"(os.DirEntry).Name":                    entryName,
-		"strings.ReplaceAll":                    replaceAll,
+		"(encoding/binary.bigEndian).Uint16":           beGet(2),
+		"(encoding/binary.bigEndian).Uint32":           beGet(4),
+		"(encoding/binary.bigEndian).Uint64":           beGet(8),
+		"(encoding/binary.bigEndian).PutUint16":        bePut(2),
+		"(encoding/binary.bigEndian).PutUint32":        bePut(4),
+		"(encoding/binary.bigEndian).PutUint64":        bePut(8),
+		"slices.Concat":                                slicesConcat,
+		"bytes.Equal":                                  bytesEqual,
+		"errors.New":                                   newError,
+		"(io/fs.DirEntry).Name":                        entryName,
+		"(os.DirEntry).Name":                           entryName,
+		"strings.ReplaceAll":                           replaceAll,
 		"(*golang.org/x/text/encoding.Encoder).String": encoderString,
-		"os.IsNotExist":                         errPredicate,
-		"os.IsExist":                            errPredicate,
-		"errors.Is":                             errPredicate,
-		"fmt.Errorf":                            newError,
-		"sort.Ints":                             sortInts,
-		"math/big.NewInt":                       bigNewInt,
-		"(*math/big.Int).Bit":                   bigBit,
-		"(*math/big.Int).SetBit":                bigSetBit,
-		"(*math/big.Int).Int64":                 bigInt64,
-		"(*sync/atomic.Uint32).Add":             atomicAdd,
-		"(*sync/atomic.Uint32).Load":            atomicLoad,
-		"(*sync/atomic.Uint32).Store":           atomicStore,
-		"(*sync/atomic.Int32).Add":              atomicAdd,
-		"(*sync/atomic.Int32).Load":             atomicLoad,
-		"(*sync/atomic.Int64).Add":              atomicAdd,
-		"(*sync/atomic.Int64).Load":             atomicLoad,
-		"(*sync.Mutex).Lock":                    lockModel("1"),
-		"(*sync.Mutex).Unlock":                  lockModel("0"),
-		"(*sync.RWMutex).Lock":                  lockModel("1"),
-		"(*sync.RWMutex).Unlock":                lockModel("0"),
-		"(*sync.RWMutex).RLock":                 lockModel("1"),
-		"(*sync.RWMutex).RUnlock":               lockModel("0"),
+		"os.IsNotExist":                                errPredicate,
+		"os.IsExist":                                   errPredicate,
+		"errors.Is":                                    errPredicate,
+		"fmt.Errorf":                                   newError,
+		"sort.Ints":                                    sortInts,
+		"math/big.NewInt":                              bigNewInt,
+		"(*math/big.Int).Bit":                          bigBit,
+		"(*math/big.Int).SetBit":                       bigSetBit,
+		"(*math/big.Int).Int64":                        bigInt64,
+		"(*sync/atomic.Uint32).Add":                    atomicAdd,
+		"(*sync/atomic.Uint32).Load":                   atomicLoad,
+		"(*sync/atomic.Uint32).Store":                  atomicStore,
+		"(*sync/atomic.Int32).Add":                     atomicAdd,
+		"(*sync/atomic.Int32).Load":                    atomicLoad,
+		"(*sync/atomic.Int64).Add":                     atomicAdd,
+		"(*sync/atomic.Int64).Load":                    atomicLoad,
+		"(*sync.Mutex).Lock":                           lockModel("1"),
+		"(*sync.Mutex).Unlock":                         lockModel("0"),
+		"(*sync.RWMutex).Lock":                         lockModel("1"),
+		"(*sync.RWMutex).Unlock":                       lockModel("0"),
+		"(*sync.RWMutex).RLock":                        lockModel("1"),
+		"(*sync.RWMutex).RUnlock":                      lockModel("0"),
 	} {
 		stdModels[k] = v
 	}
@@ -400,7 +400,6 @@ func mutatingClass(c string) bool {
 	return true
 }
 
-
 // os.IsNotExist(err), os.IsExist(err), errors.Is(err, target): an uninterpreted predicate of the
 // error(s) that holds only of a non-nil error (errors.Is: unless the target itself is nil).
 func errPredicate(x *Exec, fr *frame, ins ssa.CallInstruction, c *ssa.CallCommon, args []Val, st *State, r string) (Val, string) {
@@ -414,7 +413,6 @@ func errPredicate(x *Exec, fr *frame, ins ssa.CallInstruction, c *ssa.CallCommon
 	x.vc.S.fact(r, implies(res[0].T, nonnil))
 	return res, r
 }
-
 
 // (fs.DirEntry).Name(): the name of a directory entry: non-empty, at most NAME_MAX (255) bytes.
 func entryName(x *Exec, fr *frame, ins ssa.CallInstruction, c *ssa.CallCommon, args []Val, st *State, r string) (Val, string) {
